@@ -187,7 +187,7 @@ def check_program(env, prog, label, ndata, std):
         if accepted:
             errs = sorted({e.validator for e in validator.iter_errors(d)})[:4]
             feats["schema_keywords"] = errs
-            if "metadata=flatten" in prog.source or "| flatten" in prog.source:
+            if any(isinstance(n, ObjectT) and any(f.flatten for f in n.fields) for n in t.walk()):
                 if relaxed_validator is None:
                     relaxed_validator = jo.make_validator(relax_flattened(schema))
                 try:
